@@ -60,7 +60,7 @@ class Tracer:
     """Shim under the wrappers: which wrapped operations really executed, nested how, with what outcome."""
 
     def __init__(self):
-        self.top, self.seq, self.signals, self.keep = [], 0, [], []
+        self.top, self.seq, self.signals, self.keep, self.partial = [], 0, [], [], []
 
     def tick(self):
         self.seq += 1
@@ -123,6 +123,23 @@ def make_recorder(tr: Tracer, tag: str, signal: str, slow: bool):
     return ns[signal]
 
 
+def make_partial_recorder(tr: Tracer, tag: str, signal: str):
+    """a subscriber that declares only ONE of the signal's arguments, with a default (`async def after_enqueue(result=None)`): it
+    is called with that argument alone"""
+    op = signal.split("_", 1)[1]
+    names = PARAMS[op] + (["result"] if signal.startswith("after_") else [])
+    if not names:
+        return None
+    only = names[-1]
+    missing = object()
+
+    async def _rec(v):
+        tr.partial.append({"tag": tag, "name": signal, "got": v is not missing})
+    ns = {"missing": missing, "_rec": _rec}
+    exec(f"async def {signal}({only}=missing):\n    return await _rec({only})\n", ns)  # noqa: S102
+    return ns[signal]
+
+
 NOISE_KINDS = ["async-raise", "sync-raise", "slow", "partial", "kwonly", "varkw", "sync-ok", "returns"]
 
 
@@ -177,6 +194,9 @@ def build_conn(tr: Tracer, tag: str, subs: dict, counter: dict) -> Connection:
     if subs.get("recorders", True):
         for s in sorted(SUBSCRIBERS_NAMES):
             conn.middleware.add_subscriber(make_recorder(tr, tag, s, slow=subs.get("slow_recorder", False)))
+            pr = make_partial_recorder(tr, tag, s)
+            if pr is not None:
+                conn.middleware.add_subscriber(pr)
     for kind, signal in subs.get("noise", []):
         conn.middleware.add_subscriber(make_noise(kind, signal, counter))
     TAGS[id(conn)] = tag
@@ -376,6 +396,15 @@ def judge(tr: Tracer, model: Model, res: Result, case: dict, two_workers: bool) 
     reqs = [sx([A("mw.run"), True, False, node_sx(n)]) for n in tr.top]
     ans = model.ask(reqs)
     res.extra["model_requests"] = res.extra.get("model_requests", 0) + len(ans)
+    # subscribers that declare one argument only (with a default) are called as often as the ones that declare them all, and
+    # receive that argument
+    import collections as _c
+    full = _c.Counter((s["tag"], s["name"]) for s in tr.signals if PARAMS[s["name"].split("_", 1)[1]] or s["name"].startswith("after_"))
+    part = _c.Counter((s["tag"], s["name"]) for s in tr.partial if s["got"])
+    if full != part:
+        diff = {f"{k[0]}:{k[1]}": [full.get(k, 0), part.get(k, 0)] for k in set(full) | set(part) if full.get(k, 0) != part.get(k, 0)}
+        res.bad("impl", "a subscriber that declares only one of a signal's arguments (with a default) was not called with that argument as "
+                        "often as the signal was emitted", case=case, observed=diff, expected="equal counts [full-signature subscriber, one-argument subscriber]")
     unmatched = {t: [s for s in tr.signals if s["tag"] == t] for t in ("A", "B")}
     for n, a in zip(tr.top, ans):
         exp = [(str(e[0]), {str(k): str(v) for k, v in e[1]}) for e in parse_sx(a)]
